@@ -67,6 +67,13 @@ CHECKS["C35"] = ("exploration", "session-enforcement monitor: every registered r
     "Every request type x {null, unknown, closed, created-not-activated, foreign} token x generated bodies sent by the independent scripted client; the answer must be a session error and values, subscription and monitored-item tables must be unchanged; a write under a valid session is the control.",
     "discovery and session-establishment services are exempt as the property states", "3/C35")
 
+CHECKS["C30"] = ("exploration", "configuration-sweep monitor: independent scripted client tries every policy/mode (and unsupported combinations, and mode-switching renewals) against real servers configured with subsets of the supported pairs; model oracle established <=> configured; advertised = configured",
+    "Real servers with singleton, pair and random subsets of the 11 supported policy/mode pairs; for each, 25 OpenSecureChannel attempts by the independent peer, a renewal asking for the other mode, GetEndpoints, and real opcua.Client connects; a channel must be established exactly for configured pairs and the advertised endpoints must equal the configured pairs.",
+    "servers without any EnableSecurity option are outside the quantifier (pinned tests require None/None there)", "3/C30")
+CHECKS["C37"] = ("exploration", "interoperability matrix monitor: real client against real server for every cell of policy x mode x server key x client key x token type, write/read-back oracle incl. multi-chunk values",
+    "Each cell starts a real server enabling only that configuration, discovers and selects the advertised endpoint with a real client, connects, activates with an anonymous or username token, writes and reads back a scalar and a 150 kB ByteString. Thorough runs the complete finite matrix (141 cells).",
+    "committed self-signed certificates; quick tier runs the 2048-bit column only", "3/C37")
+
 NOT_YET = {}
 
 
